@@ -24,6 +24,8 @@ CONSTANTS MaxFields,    \* longest field list
           MinFields,
           MethodLists,  \* name of the set of method lists enumerated
           Exported,     \* set of BOOLEAN: field/method names capitalised or not
+          Preludes,     \* subset of {"none", "const", "type"}: declaration in front of the var block
+          Shadows,      \* set of BOOLEAN: main.xgo declares a package-level variable named like field 1
           Tagged        \* set of BOOLEAN: every spec of the var block carries a struct tag `k:"<first name>"`
 
 Types == {"int", "string", "float64", "bool", "ints", "smap", "ptr"}   \* []int, map[string]int, *Self
@@ -34,6 +36,8 @@ MLists(nm) ==
   CASE nm = "q" -> { <<"sum", "bump">>, <<"bump", "sum">>, <<"pair", "bump", "sum">>, <<"twice", "sum", "bump">>,
                      <<"flag">>, <<"reset", "sum">>, <<"sum", "bump", "pair", "flag", "reset", "twice">>,
                      <<"twice", "reset", "flag", "pair", "bump", "sum">> }
+    [] nm = "q1" -> { <<"sum", "bump">> }
+    [] nm = "q2" -> { <<"sum", "bump">>, <<"twice", "sum", "bump">> }
     [] nm = "all6" -> { <<"sum", "bump", "pair", "flag", "reset", "twice">> }
     [] nm = "pairs" -> { <<Templates[a], Templates[b]>> : a, b \in 1..6 } \ { <<Templates[a], Templates[a]>> : a \in 1..6 }
     [] nm = "singles" -> { <<Templates[a]>> : a \in 1..6 } \cup { <<>> }
@@ -57,13 +61,13 @@ Merge(fs, i) == IF i > Len(fs) THEN <<>>
 Block(fs, g) == IF g = "lines" THEN [i \in 1..Len(fs) |-> [names |-> <<i>>, type |-> fs[i]]] ELSE Merge(fs, 1)
 
 VARIABLES fields,    \* seq of Types
-          grouping, exported, tagged, methods,
+          grouping, exported, tagged, prelude, shadow, methods,
           twin,      \* [fields: seq of [ix, type], methods: seq of [name, params, results, recv]]
           obj,       \* abstract object: seq of values, one per field
           out,       \* expected driver output: seq of [tag, vals]
           pass, mi,  \* driver position
           pc
-vars == <<fields, grouping, exported, tagged, methods, twin, obj, out, pass, mi, pc>>
+vars == <<fields, grouping, exported, tagged, prelude, shadow, methods, twin, obj, out, pass, mi, pc>>
 
 NF == Len(fields)
 Has(m) == \E i \in 1..Len(methods) : methods[i] = m
@@ -105,6 +109,12 @@ Init == /\ fields \in FieldSeqs
         /\ grouping \in Groupings(fields)
         /\ exported \in Exported
         /\ tagged \in Tagged
+        \* ast.File.ClassFieldsDecl: the field block is the first `var` among the leading GenDecls -- a
+        \* const / type declaration in front of it changes nothing
+        /\ prelude \in Preludes
+        \* cl/expr.go compileIdent: inside a method a bare name that is a class field is the field, even
+        \* if a package-level variable of the same name exists
+        /\ shadow \in Shadows
         /\ methods \in MLists(MethodLists)
         /\ twin = [fields |-> <<>>, methods |-> <<>>]
         /\ obj = <<>> /\ out = <<>> /\ pass = 0 /\ mi = 0 /\ pc = "class"
@@ -125,7 +135,7 @@ BuildTwin ==
                                                        results |-> Results(methods[j]), recv |-> "ptr-this"]]]
   /\ obj' = [i \in 1..NF |-> Init0(fields[i], i)]      \* o := &C{positional initial values}
   /\ pass' = 1 /\ mi' = 1 /\ pc' = "run"
-  /\ UNCHANGED <<fields, grouping, exported, tagged, methods, out>>
+  /\ UNCHANGED <<fields, grouping, exported, tagged, prelude, shadow, methods, out>>
 
 \* driver: call method mi of the current pass and print its results
 Call ==
@@ -134,21 +144,30 @@ Call ==
        /\ obj' = r.obj
        /\ out' = Append(out, [tag |-> methods[mi], vals |-> r.res])
   /\ mi' = mi + 1
-  /\ UNCHANGED <<fields, grouping, exported, tagged, methods, twin, pass, pc>>
+  /\ UNCHANGED <<fields, grouping, exported, tagged, prelude, shadow, methods, twin, pass, pc>>
 
 \* driver: dump every field, then start pass 2 or stop
 Dump ==
   /\ pc = "run" /\ mi > Len(methods)
   /\ out' = out \o [i \in 1..NF |-> [tag |-> "field", vals |-> << V("int", i), V(fields[i], obj[i]) >>]]
   /\ IF pass = 1 THEN pass' = 2 /\ mi' = 1 /\ pc' = "run"
-                 ELSE pass' = pass /\ mi' = mi /\ pc' = "done"
-  /\ UNCHANGED <<fields, grouping, exported, tagged, methods, twin, obj>>
+                 ELSE pass' = pass /\ mi' = mi /\ pc' = "second"
+  /\ UNCHANGED <<fields, grouping, exported, tagged, prelude, shadow, methods, twin, obj>>
 
-Next == BuildTwin \/ Call \/ Dump
+\* driver: a SECOND instance built from the same literal still has its initial field values (state is per
+\* instance), and the package-level variable named like field 1 was never touched by the methods
+Second ==
+  /\ pc = "second"
+  /\ out' = out \o [i \in 1..NF |-> [tag |-> "second", vals |-> << V("int", i), V(fields[i], Init0(fields[i], i)) >>]]
+                \o (IF shadow THEN << [tag |-> "global", vals |-> << V(fields[1], Zero(fields[1])) >>] >> ELSE <<>>)
+  /\ pc' = "done"
+  /\ UNCHANGED <<fields, grouping, exported, tagged, prelude, shadow, methods, twin, obj, pass, mi>>
+
+Next == BuildTwin \/ Call \/ Dump \/ Second
 Spec == Init /\ [][Next]_vars /\ WF_vars(Next)
 
 -----------------------------------------------------------------------------
-TypeOK == /\ pc \in {"class", "run", "done"} /\ pass \in 0..2 /\ NF \in MinFields..MaxFields
+TypeOK == /\ pc \in {"class", "run", "second", "done"} /\ pass \in 0..2 /\ NF \in MinFields..MaxFields
           /\ grouping \in {"lines", "merged", "single"}
 \* twin and class have the same member lists: exactly the fields of the var block in order with
 \* their types, exactly the methods in order, all with pointer receiver `this`
@@ -168,10 +187,10 @@ GroupingIrrelevant == \A g \in Groupings(fields) :
             S(j) == IF j = 0 THEN 0 ELSE total[j] + S(j - 1)
         IN S(Len(blk)) = NF
 \* shape of the driver output
-OutputShape == pc = "done" => Len(out) = 2 * (Len(methods) + NF)
+OutputShape == pc = "done" => Len(out) = 2 * (Len(methods) + NF) + NF + (IF shadow THEN 1 ELSE 0)
 Terminates == <>(pc = "done")
 
 Export == pc = "done" =>
-   Emit([fields |-> fields, grouping |-> grouping, exported |-> exported, tagged |-> tagged, methods |-> methods,
+   Emit([fields |-> fields, grouping |-> grouping, exported |-> exported, tagged |-> tagged, prelude |-> prelude, shadow |-> shadow, methods |-> methods,
          block |-> Block(fields, grouping), twin |-> twin, out |-> out])
 =============================================================================
